@@ -91,9 +91,10 @@ Proof. vm_compute. repeat split; reflexivity. Qed.
 
 (* ---- CompositeInterpolationXTable: one row of numXArrValues strictly increasing x values per lg_k 4..21, positive strides ---- *)
 Lemma composite_tables_ok :
-  Z.of_nat (length composite_xArrs) = hll_MAX_LOG_K - hll_MIN_LOG_K + 1 /\
-  length composite_yStrides = length composite_xArrs /\
-  forallb (fun r => (Z.of_nat (length r) =? composite_numXArrValues) && sorted_strict r && fpos (fnth r 0)) composite_xArrs = true /\
+  Z.of_nat (length composite_xArrs_bits) = hll_MAX_LOG_K - hll_MIN_LOG_K + 1 /\
+  length composite_yStrides = length composite_xArrs_bits /\
+  forallb (fun r => (Z.of_nat (length r) =? composite_numXArrValues) && sorted_strict (map FloatBits.bits_to_float r)
+                    && fpos (FloatBits.bits_to_float (znth r 0))) composite_xArrs_bits = true /\
   forallb (fun v => 0 <? v) composite_yStrides = true /\ 4 <= composite_numXArrValues.
 Proof. vm_compute. repeat split; try reflexivity; discriminate. Qed.
 
@@ -165,7 +166,7 @@ Definition all_digests : list Z :=
    fdigest coupon_xArr; fdigest coupon_yArr; fdigest icon_coefficients;
    zdigest cpc_ICON_LOW_SIDE_DATA; zdigest cpc_ICON_HIGH_SIDE_DATA; zdigest cpc_HIP_LOW_SIDE_DATA; zdigest cpc_HIP_HIGH_SIDE_DATA;
    fdigest [cpc_ICON_ERROR_CONSTANT; cpc_HIP_ERROR_CONSTANT; hll_HIP_RSE_FACTOR; hll_NON_HIP_RSE_FACTOR; hll_COUPON_RSE_FACTOR];
-   fdigest (concat composite_xArrs); zdigest composite_yStrides].
+   zdigest (concat composite_xArrs_bits); zdigest composite_yStrides].
 Lemma tables_pinned : all_digests =
   [1631660916400092824; 1336942135380431933; 1334016574715188835; 367845026185637098; 1621689400017352834;
    2238524135473666140; 534981407937136847; 1630260656333221549; 260266529527383061; 193657861660872282;
